@@ -88,9 +88,19 @@ def oracle_recovery(rng):
     A = rs.uniform(-1, 1, (nx, nx))
     A *= rng.choice([0.6, 0.95, 1.05]) / max(0.2, np.max(np.abs(np.linalg.eigvals(A))))
     B = rs.uniform(-1, 1, (nx, nu))
-    ep = rng.random() < 0.5
+    family = 'generic'
+    if nx >= 2 and rng.random() < 0.3:
+        # [A B] of deficient row rank is a perfectly good system (a state that is a fixed combination of the others; an
+        # eigenvalue exactly zero): the regression stays well posed because the DATA matrix has full rank
+        family = 'rank-deficient [A B]'
+        T = rs.uniform(-1, 1, (nx, nx)) + 2 * np.eye(nx)
+        lam = np.concatenate(([0.0], rs.uniform(-0.9, 0.9, nx - 1)))
+        A = T @ np.diag(lam) @ np.linalg.inv(T)
+        # B in the range of A's non-null directions, so that [A B] itself is row-rank deficient
+        B = T[:, 1:] @ rs.uniform(-1, 1, (nx - 1, nu)) if nu else B
+    ep = rng.random() < 0.5 or family != 'generic'
     blocks = []
-    for l in rng.sample(range(9), rng.randint(1, 3) if ep else 1):
+    for l in rng.sample(range(9), (rng.randint(1, 3) if family == 'generic' else 3) if ep else 1):
         n = nx + nu + rng.randint(4, 10)
         x = np.zeros((n, nx))
         u = rs.uniform(-1, 1, (n, nu))
@@ -108,12 +118,16 @@ def oracle_recovery(rng):
         layout = 'interleaved'
     # the within-episode consecutive pairs, built independently of the implementation
     Psi = np.vstack([Xe[:-1] for _, Xe in blocks]).T
-    if np.linalg.cond(Psi) > 100:
+    if np.linalg.cond(Psi) > (100 if family == 'generic' else 1000):
         return None, None
     K = np.hstack((A, B))
     # every untruncated configuration: both mode types, the truncation left at its default, 'economy', or a requested
     # rank equal to (or larger than) the full rank
     mt = rng.choice(['exact', 'projected'])
+    if family != 'generic':
+        # exact DMD modes are defined through a division by the eigenvalue: with an eigenvalue that is exactly zero they
+        # do not exist (out of the domain of that option, not of the property, whose default is 'projected')
+        mt = 'projected'
 
     def untrunc(full):
         k = rng.choice(['default', 'economy', 'rank=full', 'rank>full'])
@@ -127,12 +141,12 @@ def oracle_recovery(rng):
     if nu == 0:
         k3, t3 = untrunc(nx)
         regs.append((f'Dmd(mode_type={mt}, tsvd: {k3})', pykoop.Dmd(mode_type=mt, tsvd=t3)))
-    case = {'A': A.tolist(), 'B': B.tolist(), 'X': X.tolist(), 'ep': ep, 'nu': nu, 'layout': layout, 'scale': scale}
+    case = {'A': A.tolist(), 'B': B.tolist(), 'X': X.tolist(), 'ep': ep, 'nu': nu, 'layout': layout, 'scale': scale, 'family': family}
     for name, r in regs:
         r.fit(X, n_inputs=nu, episode_feature=ep)
         err = np.max(np.abs(r.coef_.T - K))
         if err > 1e-7 * max(1.0, np.max(np.abs(K))) * np.linalg.cond(Psi):
-            return f'{name} does not recover [A B] from noise-free data ({layout} episodes, data scale {scale:g}; max error {err:.3g}, cond(Psi)={np.linalg.cond(Psi):.3g})', case
+            return f'{name} does not recover [A B] from noise-free data ({family} system, {layout} episodes, data scale {scale:g}; max error {err:.3g}, cond(Psi)={np.linalg.cond(Psi):.3g})', case
     # pipeline fit = regression on the pipeline's own lifted data
     kp = pykoop.KoopmanPipeline(lifting_functions=[('pl', pykoop.PolynomialLiftingFn(order=2))], regressor=pykoop.Edmd(alpha=0.1))
     kp.fit(X, n_inputs=nu, episode_feature=ep)
@@ -195,7 +209,7 @@ def run(ctx):
             ctx.fail(why, c, {'regressor': 'Edmd'})
     for i in range(ctx.n(40, 600)):
         why, case = oracle_recovery(ctx.rng)
-        ctx.count('recovery_cases')
+        ctx.count('recovery_cases' if case is None or 'family' not in case else 'recovery:' + case['family'])
         if why:
             ctx.fail(why, case, {'part': 'recovery'})
 
